@@ -259,6 +259,22 @@ func c17Layout(c *Ctx) {
 		}
 		checkPopOne(c, rule, sp)
 	}
+	// the entries of a received Route list live in as many per-line lists as the sender chose to write lines: the only
+	// list-level edits that mean the same for every layout are "drop the first entry" (the pops) and what the decoder
+	// builds. An entry added to one line's list (a new adder on Route) lands in a place that depends on the layout.
+	ref := "Route.routeParams"
+	allowed := map[string]bool{"ParseRoute": true, "(*Route).PopRouteParam": true, "NewRoute": true}
+	n := 0
+	for _, fn := range w.All {
+		for i, st := range w.fieldStores(fn, ref) {
+			n++
+			name := w.fname(fn)
+			fa := st.Addr.(*ssa.FieldAddr)
+			ok := allowed[name] || (isEmptyList(st.Val) && w.isFreshValue(fn, strip(fa.X), 0))
+			c.check(ok, rule, fmt.Sprintf("%s<-%s#%d", ref, name, i+1), w.ipos(st), "written by its decoder and by delete-first only", name+" edits the entry list of one Route header line ("+w.termKey(st.Val)+"): the same route set written on one line or spread over several lines ends up different (an entry appended 'as the last Route value' lands behind the first line only)")
+		}
+	}
+	c.check(n >= 2, rule, ref+"/writers", "-", "decoder and pop found", fmt.Sprintf("only %d writers of %s found", n, ref))
 }
 
 func c17WalkLayout(c *Ctx) {
